@@ -6,11 +6,40 @@ from .. import hir as H, hq, lin as L
 def make_lin(ix):
     canon = ix.canon
 
+    holder = {}
+
     def hook(n):
         if n.get("k") == "MethodCall" and n["name"] == "len" and not n["args"]:
+            # len(B[s..e]) = e - s ; len(B[s..]) = len(B) - s ; len(B[..e]) = e   (for in-bounds slices)
+            r = hq.peel(n["recv"])
+            for _ in range(4):
+                if r.get("k") == "Local":
+                    d = canon.defs.get(r["lid"])
+                    if d and d[0] == "let" and not d[2] and not d[3] and canon._simple(d[1]) and \
+                            not canon._mutated_between(d[1], d[1]["sp"][1], r):
+                        r = hq.peel(d[1])
+                        continue
+                if r.get("k") == "AddrOf":
+                    r = hq.peel(r["e"])
+                    continue
+                break
+            if r.get("k") == "Index":
+                rp = hq.range_parts(r["idx"])
+                lin = holder["lin"]
+                if rp is not None and not rp[2]:
+                    s_, e_, _ = rp
+                    base = ({"len(%s)" % canon(r["e"]): 1}, 0)
+                    if s_ is not None and e_ is not None:
+                        return L.sub(lin.of(e_), lin.of(s_))
+                    if s_ is not None:
+                        return L.sub(base, lin.of(s_))
+                    if e_ is not None:
+                        return lin.of(e_)
             return ({"len(%s)" % canon(n["recv"]): 1}, 0)
         return None
-    return L.Lin(canon, hook)
+    lin = L.Lin(canon, hook)
+    holder["lin"] = lin
+    return lin
 
 
 def facts_at(ix, lin, site):
@@ -51,7 +80,7 @@ def goals_for(ix, lin, site, rp):
     if alen is not None:
         blen = ({}, alen)
     else:
-        blen = ({"len(%s)" % ix.canon(base): 1}, 0)
+        blen = lin.of({"k": "MethodCall", "name": "len", "args": [], "recv": base, "ty": "usize"})
     goals = []
     if rp is None:
         i = lin.of(site["idx"])
